@@ -16,6 +16,7 @@ type Explorer struct {
 	MaxExec  int64         // 0 = none
 	Body     func()        // run once per execution, must build fresh state
 	Check    func(*Result) // oracle for one complete execution
+	Discard  func(*Result) // called instead of Check for executions another shard owns (cleanup only)
 
 	Executions int64
 	Points     int64 // scheduling decisions taken over all executions (transitions)
@@ -107,6 +108,8 @@ func (e *Explorer) explore(prefix []int, level int, parent *Result) {
 			e.MaxPoints = len(x.Points)
 		}
 		e.Check(x)
+	} else if e.Discard != nil {
+		e.Discard(x)
 	}
 	choices := x.Choices()
 	pre := e.preemptionsBefore(x, len(prefix))
